@@ -84,9 +84,12 @@ const PAIRS: [&str; 14] = [
 ];
 
 /// Public suffixes used as hostname locations (the property's "or public suffix").
-const PUBLIC_SUFFIX_FORMS: [&str; 3] = ["com", "co.uk", "~co.uk"];
+/// `uk` and `io` are label-suffixes OF a multi-label public suffix (co.uk, github.io): they are neither
+/// the page's public suffix nor a parent domain down to it, and cover no page under co.uk / github.io.
+const PUBLIC_SUFFIX_FORMS: [&str; 6] = ["com", "co.uk", "~co.uk", "uk", "io", "github.io"];
 
-const PAGE_HOSTS: [&str; 13] = [
+const PAGE_HOSTS: [&str; 14] = [
+    "user.github.io",
     "example.com",
     "sub.example.com",
     "a.b.example.com",
